@@ -44,7 +44,7 @@ import (
 )
 
 func init() {
-	register(&Prop{ID: "C24", Gen: genC24, Run: runC24, Timeout: 600 * time.Second})
+	register(&Prop{ID: "C24", Gen: genC24, Run: runC24, Timeout: 60 * time.Second})
 }
 
 const c24Id = txsubmission.ProtocolId
@@ -234,7 +234,7 @@ func runC24Srv(steps []string) string {
 		select {
 		case <-initCh:
 			return true
-		case <-time.After(120 * time.Second):
+		case <-time.After(40 * time.Second):
 			return false
 		}
 	}
@@ -264,7 +264,7 @@ func runC24Srv(steps []string) string {
 				txs, err := srv.RequestTxs(ids)
 				resCh <- idsRes{len(txs), err}
 			}()
-			msg, err := l.peer.recv(c24Resp, 120*time.Second)
+			msg, err := l.peer.recv(c24Resp, 40*time.Second)
 			if err != nil {
 				return strings.Join(append(out, "nowire:"+err.Error()), " ")
 			}
@@ -288,7 +288,7 @@ func runC24Srv(steps []string) string {
 				} else {
 					out = append(out, fmt.Sprintf("t%d>%d", seen, r.n))
 				}
-			case <-time.After(120 * time.Second):
+			case <-time.After(40 * time.Second):
 				return strings.Join(append(out, "HANG"), " ")
 			}
 		case (p[0] == "b" || p[0] == "n") && len(p) == 3:
@@ -316,7 +316,7 @@ func runC24Srv(steps []string) string {
 			// either the call is refused at once, or a request appears on the wire
 			var msg []byte
 			var early *idsRes
-			deadline := time.Now().Add(120 * time.Second)
+			deadline := time.Now().Add(40 * time.Second)
 			for msg == nil && early == nil {
 				select {
 				case r := <-resCh:
@@ -364,7 +364,7 @@ func runC24Srv(steps []string) string {
 			var r idsRes
 			select {
 			case r = <-resCh:
-			case <-time.After(180 * time.Second):
+			case <-time.After(45 * time.Second):
 				return strings.Join(append(out, "HANG"), " ")
 			}
 			res := strconv.Itoa(r.n)
@@ -378,7 +378,7 @@ func runC24Srv(steps []string) string {
 			if done {
 				// the server restarts its protocol instance; wait for the new
 				// instance, make sure it is registered, then start a new conversation
-				dl := time.Now().Add(120 * time.Second)
+				dl := time.Now().Add(40 * time.Second)
 				for srv.ProtocolInstance() == oldProto {
 					if time.Now().After(dl) {
 						return strings.Join(append(out, "norestart"), " ")
@@ -437,13 +437,13 @@ func runC24Cli(steps []string) string {
 	cli := txsubmission.NewClient(l.opts(protocol.ProtocolModeNodeToNode), &cfg)
 	cli.Start()
 	cli.Init()
-	if _, err := l.peer.recv(c24Id, 120*time.Second); err != nil {
+	if _, err := l.peer.recv(c24Id, 40*time.Second); err != nil {
 		return "no-init"
 	}
 	out := []string{}
 	// waitReply returns the next message from the client, or "" with the error text
 	waitReply := func() ([]byte, string) {
-		deadline := time.Now().Add(120 * time.Second)
+		deadline := time.Now().Add(40 * time.Second)
 		for {
 			select {
 			case e := <-l.errChan:
